@@ -255,6 +255,7 @@ closed:
 		if r.Done != nil {
 			r.Done <- r
 		}
+		verifPoint("clnt.recv.fanout.sent", clnt, r)
 	}
 
 	clnts.Lock()
